@@ -24,9 +24,10 @@ from functools import partial
 
 import numpy as np
 
-from lib import core, gen, oracle, graphcap, grapheval
+from lib import core, gen, oracle, graphcap, grapheval, dagcap
 
 EXTRACTORS = ["Kernels"]
+EXTRA_PROPS = ["C05Dag"]
 BACKENDS = [None, "numpy", "numpy.numpylike", "numpy.einsum"]
 UPDATE_OPS = ["set_at", "add_at", "subtract_at"]
 
@@ -316,11 +317,13 @@ def lean_equiv(ctx, items):
     if not ctx.driver_ok or not items:
         return []
     reqs = []
-    for gj1, post, _, _ in items:
+    for it in items:
+        gj1, post = it[0], it[1]
         gj2, _ = graphcap.graph_to_json(post)
         reqs.append({"kind": "equiv", "pre": gj1, "post": gj2})
     out = ctx.driver().ask_many(reqs, chunk=200)
-    for r, (_, _, sig, replay) in zip(out, items):
+    for r, it in zip(out, items):
+        sig, replay = it[2], it[3]
         v = r["verdict"]
         ctx.count("equiv:" + v)
         if v == "equal":
@@ -330,6 +333,129 @@ def lean_equiv(ctx, items):
         elif v in ("differs", "rejected"):
             ctx.tie_broken("equiv:optimised-vs-unoptimised", f"{sig}: {json.dumps(r)[:700]}")
     return out
+
+
+def lean_optdag(ctx, items):
+    """T-str, traversal: the Lean model of the REAL traversal (`Optimize/Dag.lean: optimizeDag` -- memo, pattern order, rebuild, pass
+    loop) is run by the driver on the store of every real pre-optimisation graph with the REAL pattern list of the numpy backend; its
+    output must be structurally equal (canonical form of lib.dagcap) to the real optimised graph, pass by pass flag `changed` included.
+    items: [(pre graph JSON, post graph, sig, replay, [changed flag of every real pass] | None)]."""
+    if not ctx.driver_ok or not items:
+        return
+    try:
+        pats = dagcap.patterns_json(numpy_patterns())
+    except dagcap.Unsupported as e:
+        ctx.tie_broken("correspondence:optdag", f"pattern list of the numpy backend cannot be described to the model: {e}")
+        return
+    reqs, keep = [], []
+    for it in items:
+        gj1, post, sig = it[0], it[1], it[2]
+        flags = it[4] if len(it) > 4 else None
+        try:
+            pre = dagcap.to_dag(gj1)
+            want = dagcap.canon(dagcap.to_dag(graphcap.graph_to_json(post)[0]))
+        except dagcap.Unsupported as e:
+            ctx.count("optdag:not-serialisable:" + str(e)[:40])
+            continue
+        reqs.append({"kind": "optdag", "prog": pre, "patterns": pats, "max_passes": len(pre["nodes"]) + 3})
+        keep.append((sig, want, flags, pre))
+    out = ctx.driver().ask_many(reqs, chunk=100)
+    for r, (sig, want, flags, pre) in zip(out, keep):
+        if "error_kind" in r:
+            if r["error_kind"] == "unsupported":
+                ctx.count("optdag:unsupported:" + r.get("why", "")[:40])
+            else:     # the real optimiser returned a graph, the model says Python raises / the fuel bound is not enough
+                ctx.count("optdag:MODEL-ERROR")
+                ctx.tie_broken("correspondence:optdag", f"{sig}: the real optimiser returns a graph, the model answers {json.dumps(r)[:300]}")
+            continue
+        d = dagcap.first_difference(dagcap.canon(r["prog"]), want)
+        if d is not None:
+            ctx.count("optdag:DIFFERS")
+            ctx.tie_broken("correspondence:optdag", f"{sig}: model output and real optimised graph differ structurally at {d[:500]}")
+            continue
+        if flags is not None and list(flags) != list(r["changed"]):
+            ctx.count("optdag:PASS-FLAGS-DIFFER")
+            ctx.tie_broken("correspondence:optdag", f"{sig}: `changed` per pass: real {list(flags)}, model {r['changed']}")
+            continue
+        ctx.count("optdag:structurally-equal")
+        ctx.count(f"optdag:passes:{len(r['changed'])}")
+        if any(n["origin"] and "app" in n["origin"] and n["origin"]["app"]["head"][0] in ("call_inplace", "updateitem") for n in pre["nodes"]):
+            ctx.count("optdag:structurally-equal:with-inplace-nodes")
+        if any(r["changed"]):
+            ctx.count("optdag:structurally-equal:rewritten")
+        # the decidable side conditions of `optimizeDag_sound` (Props/C05Dag.lean), computed by the driver for this run
+        if r.get("good_run") and r.get("pure_lang"):
+            ctx.count("optdag:covered-by-optimizeDag_sound(side conditions hold, pure node language)")
+        elif r.get("good_run"):
+            ctx.count("optdag:outside-the-pure-node-language(in-place nodes, multi-output casts, nested graphs)")
+        ctx.count("optdag:side-condition-of-pass_terminates(topological order, every pass):" + ("holds" if r.get("fuel_run") else "fails"))
+        ctx.count("optdag:side-conditions-of-optimizeDag_sound:" + ("hold" if r.get("good_run") else
+                  "fail:" + ("top-level-graph-inlined" if not r.get("no_top_inline") else "top-not-a-wellformed-graph" if not r.get("wf_top") else "later-pass")))
+        ctx.extra["optdag_structurally_equal"] = ctx.extra.get("optdag_structurally_equal", 0) + 1
+
+
+def directed_exceptions(ctx):
+    """T-str, error paths of the traversal: graphs on which the REAL optimiser raises (a pattern indexing a missing argument, reading
+    the shape of a tensor without one, composing an out-of-range permutation; `_optimize` on a leaf it does not know).  The model must
+    answer `Err.py` with the same exception class."""
+    import types
+    import einx._src.tracer as tracer
+    if not ctx.driver_ok:
+        return
+    P = tracer.signature.python
+    T = tracer.signature.classical.Tensor
+    CT = tracer.signature.classical.ConvertibleTensor
+    npm = P.import_("numpy", as_="np")
+    pats = numpy_patterns()
+    pj = dagcap.patterns_json(pats)
+
+    def g_reshape_one_arg():     # (a second graph input: otherwise InlineGraph collapses the graph into `np.reshape` first)
+        x = T(None, (2, 3))
+        return tracer.Graph([x, T(None, ())], tracer.cast(P.call(npm.reshape, [x]), partial(T, shape=(6,))), name="op")
+
+    def g_transpose_no_shape():
+        x = CT(None, concrete=types.SimpleNamespace(type=float), shape=None)
+        return tracer.Graph([x], tracer.cast(P.call(npm.transpose, [x, (1, 0)]), partial(T, shape=(3, 2))), name="op")
+
+    def g_transpose_out_of_range():
+        x = T(None, (2, 3))
+        y = tracer.cast(P.call(npm.transpose, [x, (1, 0)]), partial(T, shape=(3, 2)))
+        return tracer.Graph([x], tracer.cast(P.call(npm.transpose, [y, (0, 2)]), partial(T, shape=(3, 2))), name="op")
+
+    def g_unknown_leaf():
+        x = T(None, (2, 3))
+        return tracer.Graph([x], tracer.cast(P.call(npm.sum, [x], {"dtype": object()}), partial(T, shape=())), name="op")
+
+    def g_broadcast_one_arg():
+        x = T(None, (2, 3))
+        return tracer.Graph([x, T(None, ())], tracer.cast(P.call(npm.broadcast_to, [x]), partial(T, shape=(2, 3))), name="op")
+
+    def g_concatenate_no_args():
+        x = T(None, (2, 3))
+        return tracer.Graph([x], tracer.cast(P.call(npm.concatenate, [], {"axis": 0}), partial(T, shape=(2, 3))), name="op")
+
+    for build in (g_reshape_one_arg, g_transpose_no_shape, g_transpose_out_of_range, g_unknown_leaf, g_broadcast_one_arg, g_concatenate_no_args):
+        g = build()
+        gj, _ = graphcap.graph_to_json(g)
+        try:
+            tracer.optimize(g, pats)
+            real = None
+        except Exception as e:
+            real = type(e).__name__
+        try:
+            pre = dagcap.to_dag(gj)
+        except dagcap.Unsupported as e:
+            ctx.count("optdag-exc:not-serialisable:" + str(e)[:40])
+            continue
+        r = ctx.driver().ask({"kind": "optdag", "prog": pre, "patterns": pj, "max_passes": len(pre["nodes"]) + 3})
+        model = r.get("exc") if r.get("error_kind") == "py" else ("unsupported" if r.get("error_kind") == "unsupported" else None if "prog" in r else r.get("error_kind"))
+        ctx.count("optdag-exc:cases")
+        if model == "unsupported":
+            ctx.count("optdag-exc:unsupported:" + r.get("why", "")[:40])
+        elif model != real:
+            ctx.tie_broken("correspondence:optdag", f"{build.__name__}: the real optimiser {'raises ' + real if real else 'returns a graph'}, the model {'raises ' + str(model) if model else 'returns a graph'}")
+        else:
+            ctx.count("optdag-exc:same:" + str(real))
 
 
 # ------------------------------------------------------------------------------------------------ shrinking
@@ -646,15 +772,17 @@ def stream(ctx, n_calls, n_updates):
         if "CallInplace" in kinds or "UpdateItem" in kinds:
             ctx.count("graphs-with-inplace-nodes")
         ctx.case(sig, nontrivial=changed)
-        items.append((snap["json"], post, sig, replay))
+        items.append((snap["json"], post, sig, replay, [p["changed"] for p in log.runs[-1]] if log.runs else None))
         if len(ctx.samples) < 3 and changed:
             ctx.sample({"call": sig, "nodes_before": dag, "passes": [[p["changed"], p["tree_in"], p["tree_out"]] for run in log.runs for p in run], "code": rec.get("code")})
         if len(items) >= 200:
             lean_equiv(ctx, items)
+            lean_optdag(ctx, items)
             items = []
         if len(ctx.violations) >= 5:
             break
     lean_equiv(ctx, items)
+    lean_optdag(ctx, items)
 
 
 def synthetic(ctx, specs, label):
@@ -698,13 +826,15 @@ def synthetic(ctx, specs, label):
         ctx.case(sig, nontrivial=changed)
         if len(ctx.samples) < 6 and changed and shared:
             ctx.sample({"chain": sig, "passes": [[p["changed"], p["tree_in"], p["tree_out"]] for p in run]})
-        items.append((r["pre_json"], r["post"], sig, replay))
+        items.append((r["pre_json"], r["post"], sig, replay, [p["changed"] for p in run]))
         if len(items) >= 300:
             lean_equiv(ctx, items)
+            lean_optdag(ctx, items)
             items = []
         if len(ctx.violations) >= 5:
             break
     lean_equiv(ctx, items)
+    lean_optdag(ctx, items)
 
 
 def run(ctx):
@@ -727,6 +857,7 @@ def run(ctx):
         n_calls, n_chains = n_calls * 3, n_chains * 4
     if ctx.driver_ok:
         kernel_correspondence(ctx, n_kernel)
+        directed_exceptions(ctx)
     # targeted chains first: the shapes of change the property names (composition order, multi-consumer operand)
     targeted = []
     for shape in ([2, 2, 2], [2, 3, 4], [2, 2, 3, 3]):
